@@ -4,6 +4,7 @@ the recorded outcomes are judged by TraceConfig (TLC)."""
 import contextlib
 import io
 import itertools
+import json
 import math
 import random
 import threading
@@ -60,8 +61,9 @@ def extends_cases(tier, seed):
             if nd["ext"]:
                 d["extends"] = nd["ext"]
             whole[nd["name"]] = d
+        before = json.dumps(whole, sort_keys=True)
         st, res = _call_with_timeout(lambda: json_extends(whole_json=whole, parent_name=start, target_json=whole[start], excludes_fields=list(excl)))
-        case = {"c": "ext", "G": G, "start": start, "excl": excl, "st": "ok", "kv": []}
+        case = {"c": "ext", "G": G, "start": start, "excl": excl, "st": "ok", "kv": [], "intact": json.dumps(whole, sort_keys=True) == before}
         if st == "ok":
             case["kv"] = sorted([[k, v] for k, v in res.items() if k != "extends"])
             if "extends" in res:
@@ -164,6 +166,21 @@ def setup_cases(tier, seed):
                 same = all(sorted(int(m.market_id) for m in sim.markets if a.is_market_accessible(m.market_id)) == accs for a in ags)
                 case_x["acc"].append(accs if (ags and same) else (sorted(x for gi in lists[g] for x in case_x["mids"][gi]) if not ags else [-1]))
             out.extend([case_m, case_a, case_x])
+            # the SAME settings object configures a second runner: resolving inheritance must not have altered what the
+            # groups declare (same sizes, ids, names as the declarations say)
+            with warnings.catch_warnings():
+                warnings.simplefilter("ignore")
+                r2 = SequentialRunner(settings=cfg, prng=random.Random(i))
+                r2.class_register(_A)
+                r2._setup()
+            sim2 = r2.simulator
+            for what, decls, groups, pre in (("markets", mdecls, sim2.markets_group_name2market, "MG"), ("agents", adecls, sim2.agents_group_name2agent, "AG")):
+                c2 = {"c": "setup", "what": what + "-second-use-of-settings", "decls": decls, "out": "ok", "ids": [], "names": []}
+                for g in range(len(decls)):
+                    xs = groups.get("%s%d" % (pre, g), [])
+                    c2["ids"].append([int(x.market_id if what == "markets" else x.agent_id) for x in xs])
+                    c2["names"].append([x.name for x in xs])
+                out.append(c2)
         except Exception as ex:  # noqa: BLE001
             out.append({"c": "setup", "what": "config", "decls": mdecls + adecls, "out": type(ex).__name__,
                         "ids": [[] for _ in mdecls + adecls], "names": [[] for _ in mdecls + adecls], "msg": str(ex)[:100]})
